@@ -43,7 +43,9 @@ class Indentator(object):
         self._level -= 1
 
     def _generate_indents(self, dispatcher):
-        s = self.indent_str if self.indent_str else dispatcher.indent_str
+        s = (
+            dispatcher.indent_str if self.indent_str is None else
+            self.indent_str)
         indents = s * self._level
         if indents:
             yield StreamFragment(indents, None, None, None, None)
